@@ -96,7 +96,9 @@ def classify(v):
             for k in copulas:
                 for k2 in copulas:
                     tx = text if isinstance(text, str) else ''.join(chr(c) for c in text)
-                    if k2 != k and len(k2) > len(k) and k2.endswith(k) and n.endswith(k2[:len(k2) - len(k)]) and (n + k) in tx.replace(' ', ''):
+                    # the lexical parser deletes EVERY whitespace character before parsing, the enum parser only skips the format's space
+                    glued = ''.join(ch for ch in tx if not ch.isspace()) if v.get('pipeline') == 'fold' else tx.replace(' ', '')
+                    if k2 != k and len(k2) > len(k) and k2.endswith(k) and n.endswith(k2[:len(k2) - len(k)]) and (n + k) in glued:
                         return 'name-plus-copula-reads-as-longer-copula'
         for n in names:
             for k in copulas:
@@ -110,6 +112,18 @@ def classify(v):
             # a name that itself reads as a (possibly empty) budget: opening bracket, digits/separators, closing bracket
             if bl and n.startswith(bl) and br in n[len(bl):] and all(ch.isdigit() or ch in '.' + kwf['task.budget_separator'] for ch in n[len(bl):n.index(br, len(bl))]):
                 return 'name-reads-as-budget'
+        tl, tr = kwf['sentence.truth_brackets']
+        for n in names:
+            # lexical parser: a name that ends the input and itself reads as a (possibly empty) truth value
+            if tl and tl in n and n.endswith(tr) and all(ch.isdigit() or ch in '.' + kwf['sentence.truth_separator'] for ch in n[n.rindex(tl) + len(tl):len(n) - len(tr)]):
+                return 'name-reads-as-truth'
+        for n in names:
+            # lexical parser: a name that ends the input and whose tail reads as a stamp (tense keyword, or fixed-stamp marker + integer)
+            for key in ('sentence.stamp_past', 'sentence.stamp_present', 'sentence.stamp_future'):
+                kw_ = kwf.get(key)
+                if kw_ and all(ch.isalnum() for ch in kw_) and n.endswith(kw_): return 'name-reads-as-stamp'
+            fx = kwf.get('sentence.stamp_fixed')
+            if fx and all(ch.isalnum() for ch in fx) and fx in n and (n[n.rindex(fx) + len(fx):].lstrip('+-').isdigit() or n.endswith(fx)): return 'name-reads-as-stamp'
     cls = ''.join('d' if ch.isdigit() else 'a' if ch.isalnum() else 'p' for n in names for ch in n)
     return 'other:%s:%s' % (v['shape'], cls)
 
@@ -137,6 +151,9 @@ def shape_list(tier):
             if nm.startswith(('atom/', 'bin/Inheritance', 'set/SetExtension', 'image/ImageExtension@1')):
                 shapes.append((nm + '/len2', ('Term', t)))
     for nm, t in nested_terms():
+        shapes.append((nm, ('Term', t)))
+    import os
+    for nm, t in gen_terms(10 if quick else 120, os.environ.get('VERIF_SEED', '0') or '0'):
         shapes.append((nm, ('Term', t)))
     st_term = ('Inheritance', A(0), A(1))
     ss = sentences(st_term); ts = tasks(st_term)
